@@ -86,6 +86,12 @@ func (c *relayCore) run(ctx context.Context) error {
 
 		if wc, ok := dir.dst.(WriteCloser); ok {
 			_ = wc.CloseWrite()
+		} else if tcpConn, ok := unwrapRelayTCPConn(dir.dst); ok {
+			// dae's own client-side wrappers (prefixedConn, bufioConn,
+			// ConnSniffer) embed net.Conn and therefore hide CloseWrite.
+			// Propagate the half-close on the socket they wrap, the same
+			// socket the copy paths already operate on directly.
+			_ = tcpConn.CloseWrite()
 		}
 
 		if err != nil {
